@@ -225,7 +225,7 @@ def _check_one(s, f_locals, hostile, watch_expr=None):
                 hid.add(id(o))
             if type(o) is dict and any(type(k).__name__ == "BadKeyStr" for k in o):
                 hid.add(id(o))
-    r = reader.check_frame_fidelity(s, 0, f_locals, 1024, 10, 5, require_all_locals=True, hostile_ids=hid)
+    r = reader.check_frame_fidelity(s, 0, f_locals, 1024, 10, 5, require_all_locals=True, hostile_ids=hid, complete=True)
     if r:
         return "C06:" + r
     # closure + no entry unreachable from this snapshot's own frames / watches
